@@ -12,6 +12,7 @@
 -/
 import MitmVerif.Basic.Bytes
 import MitmVerif.Gen.C44
+import MitmVerif.Model.C35_Str
 namespace MitmVerif.C44
 
 abbrev Name := Nat
@@ -147,7 +148,7 @@ def St.empty : St := ⟨[], [], [], []⟩
 
 def St.listeners (st : St) : List Listener := st.subs ++ st.direct
 
-inductive Outcome | ok | typeError | optionsError | keyError | attributeError
+inductive Outcome | ok | typeError | optionsError | keyError | attributeError | valueError | runtimeError
   deriving DecidableEq, Repr
 
 structure Res where
@@ -378,6 +379,157 @@ def merge (st : St) (kvs : List (Name × Val)) : Res :=
   | .error e => ⟨st, e, [], []⟩
   | .ok toset => update st toset
 
+/-! ### config-file paths: `optmanager.relative_path` (the `scripts` entries of a config file are made relative
+    to that file by `load(opts, text, cwd)`), with the pathlib / posixpath pieces it is made of -/
+
+def spanNotSlash : PyStr → PyStr × PyStr
+  | [] => ([], [])
+  | c :: r => if c == 47 then ([], c :: r) else (c :: (spanNotSlash r).1, (spanNotSlash r).2)
+
+def rstripSlashP (s : PyStr) : PyStr := (s.reverse.dropWhile (· == 47)).reverse
+
+/-- `posixpath.expanduser`; `home` = `$HOME` (or the current user's pw_dir), `pw` = the password database.
+    `none` = ValueError (embedded NUL in the user name). The same function as `C45.expandUser`. -/
+def expandUserP (home : Option PyStr) (pw : PyStr → Option PyStr) (p : PyStr) : Option PyStr :=
+  match p with
+  | 126 :: r =>
+    let name := (spanNotSlash r).1
+    let rest := (spanNotSlash r).2
+    if name.isEmpty then
+      match home with
+      | none => some p
+      | some h => let x := rstripSlashP h ++ rest; some (if x.isEmpty then [47] else x)
+    else if name.contains 0 then none
+    else
+      match pw name with
+      | none => some p
+      | some h => let x := rstripSlashP h ++ rest; some (if x.isEmpty then [47] else x)
+  | _ => some p
+
+/-- a parsed `PurePosixPath`: root (`""`, `"/"` or `"//"`) and the components -/
+structure PPath where
+  root : PyStr
+  parts : List PyStr
+  deriving DecidableEq
+
+def splitSlash : PyStr → List PyStr
+  | [] => [[]]
+  | c :: r =>
+    if c == 47 then [] :: splitSlash r
+    else match splitSlash r with
+      | h :: t => (c :: h) :: t
+      | [] => [[c]]
+
+/-- `PurePosixPath(s)`: `posixpath.splitroot`, then the components that are neither empty nor `.` -/
+def parsePath (s : PyStr) : PPath :=
+  let rr : PyStr × PyStr :=
+    match s with
+    | 47 :: 47 :: 47 :: r => ([47], 47 :: 47 :: r)
+    | 47 :: 47 :: r => ([47, 47], r)
+    | 47 :: r => ([47], r)
+    | r => ([], r)
+  ⟨rr.1, (splitSlash rr.2).filter fun x => !x.isEmpty && x != [46]⟩
+
+def joinParts : List PyStr → PyStr
+  | [] => []
+  | [a] => a
+  | a :: r => a ++ 47 :: joinParts r
+
+/-- `str(path)` -/
+def PPath.str (p : PPath) : PyStr :=
+  if !p.root.isEmpty then p.root ++ joinParts p.parts
+  else if p.parts.isEmpty then [46] else joinParts p.parts
+
+/-- `a / b` -/
+def pjoin (a b : PPath) : PPath := if !b.root.isEmpty then b else ⟨a.root, a.parts ++ b.parts⟩
+
+inductive PathErr | value | runtime      -- ValueError (NUL in a user name) / RuntimeError("Could not determine home directory.")
+  deriving DecidableEq
+
+/-- `Path.expanduser()` -/
+def pExpandUser (home : Option PyStr) (pw : PyStr → Option PyStr) (p : PPath) : Except PathErr PPath :=
+  if !p.root.isEmpty then .ok p
+  else match p.parts with
+    | [] => .ok p
+    | f :: t =>
+      if f.head? = some 126 then
+        match expandUserP home pw f with
+        | none => .error .value
+        | some h =>
+          if h.head? = some 126 then .error .runtime
+          else .ok ⟨(parsePath h).root, (parsePath h).parts ++ t⟩
+      else .ok p
+
+/-- `Path.absolute()` with `os.getcwd() = cwd` -/
+def pAbsolute (cwd : PyStr) (p : PPath) : PPath := if !p.root.isEmpty then p else pjoin (parsePath cwd) p
+
+/-- `optmanager.relative_path(script_path, relative_to=rel)` -/
+def relativePath (home : Option PyStr) (pw : PyStr → Option PyStr) (cwd rel path : PyStr) : Except PathErr PPath :=
+  let sp := parsePath path
+  match pExpandUser home pw sp with
+  | .error e => .error e
+  | .ok e1 =>
+    let sp2 := if e1.str != sp.str && sp.root.isEmpty then pAbsolute cwd e1 else sp
+    match pExpandUser home pw sp2 with
+    | .error e => .error e
+    | .ok e2 => .ok (pAbsolute cwd (pjoin (parsePath rel) e2))
+
+/-! ### `load(opts, text, cwd)`: the `scripts` entries of a config file are made relative to that file -/
+
+/-- the option the harness calls `scripts` -/
+def scriptsName : Name := 6
+
+/-- what the process environment contributes to path handling -/
+structure PathEnv where
+  home : Option PyStr
+  pw : PyStr → Option PyStr
+  getcwd : PyStr
+
+def relOne (env : PathEnv) (cfgdir : PyStr) (path : PyStr) : Except Outcome Atom :=
+  match relativePath env.home env.pw env.getcwd cfgdir path with
+  | .ok p => .ok (.s (utf8 p.str))
+  | .error .value => .error .valueError
+  | .error .runtime => .error .runtimeError
+
+/-- `[str(relative_path(Path(path), relative_to=Path(cwd))) for path in scripts]` over a list -/
+def relAll (env : PathEnv) (cfgdir : PyStr) : List Atom → Except Outcome (List Atom)
+  | [] => .ok []
+  | .s b :: r =>
+    match relOne env cfgdir (MitmVerif.C35.native b) with
+    | .error e => .error e
+    | .ok x => (relAll env cfgdir r).map (x :: ·)
+  | _ :: _ => .error .typeError            -- `Path(1)`, `Path(None)`, …
+
+/-- the same over a `str` (Python iterates its characters) -/
+def relChars (env : PathEnv) (cfgdir : PyStr) : PyStr → Except Outcome (List Atom)
+  | [] => .ok []
+  | c :: r =>
+    match relOne env cfgdir [c] with
+    | .error e => .error e
+    | .ok x => (relChars env cfgdir r).map (x :: ·)
+
+def dictReplace (d : List (Name × Val)) (k : Name) (v : Val) : List (Name × Val) :=
+  d.map fun kv => if kv.1 == k then (kv.1, v) else kv
+
+/-- the rewriting of the parsed config data -/
+def rewriteScripts (env : PathEnv) (cfgdir : PyStr) (data : List (Name × Val)) : Except Outcome (List (Name × Val)) :=
+  let scripts : Option Val := (data.find? (·.1 == scriptsName)).map (·.2)
+  match scripts with
+  | none => .ok data
+  | some (.a .none) => .ok data
+  | some (.seq xs) => (relAll env cfgdir xs).map fun ys => dictReplace data scriptsName (.seq ys)
+  | some (.a (.s b)) => (relChars env cfgdir (MitmVerif.C35.native b)).map fun ys => dictReplace data scriptsName (.seq ys)
+  | some (.a _) => .error .typeError       -- an int / bool / float is not iterable
+
+/-- `load(opts, text, cwd)` on the parsed text -/
+def load (env : PathEnv) (st : St) (cwd : Option PyStr) (data : List (Name × Val)) : Res :=
+  match cwd with
+  | none => updateDefer st data
+  | some dir =>
+    match rewriteScripts env dir data with
+    | .error e => ⟨st, e, [], []⟩
+    | .ok d => updateDefer st d
+
 inductive Op
   | addOption (n : Name) (ty : Ty) (d : Val)
   | subscribe (l : Listener)
@@ -388,6 +540,7 @@ inductive Op
   | processDeferred
   | reset
   | merge (kvs : List (Name × Val))
+  | load (env : PathEnv) (cwd : Option PyStr) (data : List (Name × Val))
 
 def step (st : St) : Op → Res
   | .addOption n ty d => addOption st n ty d
@@ -399,6 +552,7 @@ def step (st : St) : Op → Res
   | .processDeferred => processDeferred st
   | .reset => reset st
   | .merge kvs => merge st kvs
+  | .load env cwd data => load env st cwd data
 
 /-- run a history; returns the final state and every listener call made on the way -/
 def runFrom (st : St) : List Op → St × List Obs
@@ -522,6 +676,14 @@ def mergeN (st : St) (kvs : List (Name × Val)) : Res :=
   | .error e => ⟨st, e, [], []⟩
   | .ok toset => updateN st toset
 
+def loadN (env : PathEnv) (st : St) (cwd : Option PyStr) (data : List (Name × Val)) : Res :=
+  match cwd with
+  | none => updateDeferN st data
+  | some dir =>
+    match rewriteScripts env dir data with
+    | .error e => ⟨st, e, [], []⟩
+    | .ok d => updateDeferN st d
+
 def stepN (st : St) : Op → Res
   | .addOption n ty d => addOptionN st n ty d
   | .subscribe l => subscribe st l
@@ -532,6 +694,7 @@ def stepN (st : St) : Op → Res
   | .processDeferred => processDeferredN st
   | .reset => resetN st
   | .merge kvs => mergeN st kvs
+  | .load env cwd data => loadN env st cwd data
 
 def runFromN (st : St) : List Op → St × List Obs
   | [] => (st, [])
@@ -541,101 +704,6 @@ def runFromN (st : St) : List Op → St × List Obs
     (y.1, x.obs ++ y.2)
 
 def runN (ops : List Op) : St × List Obs := runFromN St.empty ops
-
-/-! ### config-file paths: `optmanager.relative_path` (the `scripts` entries of a config file are made relative
-    to that file by `load(opts, text, cwd)`), with the pathlib / posixpath pieces it is made of -/
-
-def spanNotSlash : PyStr → PyStr × PyStr
-  | [] => ([], [])
-  | c :: r => if c == 47 then ([], c :: r) else (c :: (spanNotSlash r).1, (spanNotSlash r).2)
-
-def rstripSlashP (s : PyStr) : PyStr := (s.reverse.dropWhile (· == 47)).reverse
-
-/-- `posixpath.expanduser`; `home` = `$HOME` (or the current user's pw_dir), `pw` = the password database.
-    `none` = ValueError (embedded NUL in the user name). The same function as `C45.expandUser`. -/
-def expandUserP (home : Option PyStr) (pw : PyStr → Option PyStr) (p : PyStr) : Option PyStr :=
-  match p with
-  | 126 :: r =>
-    let name := (spanNotSlash r).1
-    let rest := (spanNotSlash r).2
-    if name.isEmpty then
-      match home with
-      | none => some p
-      | some h => let x := rstripSlashP h ++ rest; some (if x.isEmpty then [47] else x)
-    else if name.contains 0 then none
-    else
-      match pw name with
-      | none => some p
-      | some h => let x := rstripSlashP h ++ rest; some (if x.isEmpty then [47] else x)
-  | _ => some p
-
-/-- a parsed `PurePosixPath`: root (`""`, `"/"` or `"//"`) and the components -/
-structure PPath where
-  root : PyStr
-  parts : List PyStr
-  deriving DecidableEq
-
-def splitSlash : PyStr → List PyStr
-  | [] => [[]]
-  | c :: r =>
-    if c == 47 then [] :: splitSlash r
-    else match splitSlash r with
-      | h :: t => (c :: h) :: t
-      | [] => [[c]]
-
-/-- `PurePosixPath(s)`: `posixpath.splitroot`, then the components that are neither empty nor `.` -/
-def parsePath (s : PyStr) : PPath :=
-  let rr : PyStr × PyStr :=
-    match s with
-    | 47 :: 47 :: 47 :: r => ([47], 47 :: 47 :: r)
-    | 47 :: 47 :: r => ([47, 47], r)
-    | 47 :: r => ([47], r)
-    | r => ([], r)
-  ⟨rr.1, (splitSlash rr.2).filter fun x => !x.isEmpty && x != [46]⟩
-
-def joinParts : List PyStr → PyStr
-  | [] => []
-  | [a] => a
-  | a :: r => a ++ 47 :: joinParts r
-
-/-- `str(path)` -/
-def PPath.str (p : PPath) : PyStr :=
-  if !p.root.isEmpty then p.root ++ joinParts p.parts
-  else if p.parts.isEmpty then [46] else joinParts p.parts
-
-/-- `a / b` -/
-def pjoin (a b : PPath) : PPath := if !b.root.isEmpty then b else ⟨a.root, a.parts ++ b.parts⟩
-
-inductive PathErr | value | runtime      -- ValueError (NUL in a user name) / RuntimeError("Could not determine home directory.")
-  deriving DecidableEq
-
-/-- `Path.expanduser()` -/
-def pExpandUser (home : Option PyStr) (pw : PyStr → Option PyStr) (p : PPath) : Except PathErr PPath :=
-  if !p.root.isEmpty then .ok p
-  else match p.parts with
-    | [] => .ok p
-    | f :: t =>
-      if f.head? = some 126 then
-        match expandUserP home pw f with
-        | none => .error .value
-        | some h =>
-          if h.head? = some 126 then .error .runtime
-          else .ok ⟨(parsePath h).root, (parsePath h).parts ++ t⟩
-      else .ok p
-
-/-- `Path.absolute()` with `os.getcwd() = cwd` -/
-def pAbsolute (cwd : PyStr) (p : PPath) : PPath := if !p.root.isEmpty then p else pjoin (parsePath cwd) p
-
-/-- `optmanager.relative_path(script_path, relative_to=rel)` -/
-def relativePath (home : Option PyStr) (pw : PyStr → Option PyStr) (cwd rel path : PyStr) : Except PathErr PPath :=
-  let sp := parsePath path
-  match pExpandUser home pw sp with
-  | .error e => .error e
-  | .ok e1 =>
-    let sp2 := if e1.str != sp.str && sp.root.isEmpty then pAbsolute cwd e1 else sp
-    match pExpandUser home pw sp2 with
-    | .error e => .error e
-    | .ok e2 => .ok (pAbsolute cwd (pjoin (parsePath rel) e2))
 
 /-! ### config file -/
 
